@@ -109,6 +109,18 @@ def walker_coverage(ctx: Ctx, I: Interp) -> None:
     ctx.require({"TAG", "JSXTAG"} <= seen, "_walk_attrs_and_children: no path for Tag / JSXTag")
 
 
+def _as_function(prog: Any, v: Any) -> Any:
+    """The function a callable value stands for: itself, or the __call__ of an instance of a package class (bound to it)."""
+    if isinstance(v, SFunc):
+        return v
+    from ..frontend import ClassInfo
+    if isinstance(v, SNew) and isinstance(v.cls, ClassInfo):
+        m = prog.find_method(v.cls, "__call__")
+        if m is not None and m[0].module.name.startswith("htmltools"):
+            return SFunc(m[0].module, m[1], v, m[0], None, f"{m[0].name}.__call__")
+    return None
+
+
 def visitor_table(ctx: Ctx, I: Interp) -> None:
     """The closure passed to the walker, and what JSXTag.tagify returns."""
     prog = ctx.prog
@@ -132,8 +144,9 @@ def visitor_table(ctx: Ctx, I: Interp) -> None:
         s = l.run.__dict__["s"]
         ctx.require(l.kind == "return", f"JSXTag.tagify raises {short(l.value)}")
         walk = [e for e in l.effects if e.kind == "call" and getattr(e.target, "qual", "") == "_walk_attrs_and_children"]
-        ctx.require(len(walk) == 1 and len(walk[0].value) == 2 and isinstance(walk[0].value[1], SFunc), "JSXTag.tagify does not call the walker with a visitor function")
-        visitor = walk[0].value[1]
+        ctx.require(len(walk) == 1 and len(walk[0].value) == 2, "JSXTag.tagify does not call the walker with a visitor")
+        visitor = _as_function(prog, walk[0].value[1])
+        ctx.require(visitor is not None, "JSXTag.tagify does not call the walker with a visitor function")
         walked = walk[0].value[0]
         ctx.check(walked is s or (isinstance(walked, SObj) and walked.meta.get("copy_of") is s), "C20.collect", "the walk starts at the component", where,
                   f"walks {short(walked)}", "the walker is not started on the component itself")
@@ -151,6 +164,16 @@ def visitor_table(ctx: Ctx, I: Interp) -> None:
                   f"library dependencies {pk}", f"the converted component carries {pk} instead of both react and react-dom",
                   witness="Foo().tagify().get_dependencies()")
         holder["tag_node"] = v.node
+        # where the splatted children of the script come from (access paths in tagify's own scope)
+        env1 = getattr(l, "env", None) or {}
+        for sv_ in v.star:
+            for nm_, v_ in env1.items():
+                if v_ is sv_:
+                    holder.setdefault("star_paths", set()).add((nm_,))
+                if isinstance(v_, SNew):
+                    for a_, w_ in v_.attrs.items():
+                        if w_ is sv_:
+                            holder.setdefault("star_paths", set()).add((nm_, a_))
         # the component's JS is rendered from the walked copy
         rr = [e for e in l.effects if e.kind == "call" and getattr(e.target, "qual", "") == "_render_react_js"]
         if rr:
@@ -163,7 +186,7 @@ def visitor_table(ctx: Ctx, I: Interp) -> None:
     ctx.require(visitor is not None, "visitor not found")
     # ---- the visitor, per kind ------------------------------------------------------------------------
     vfn = visitor.node
-    vp = [a.arg for a in vfn.args.args][len(visitor.__dict__.get("pre_args") or []):]
+    vp = [a.arg for a in vfn.args.args][(1 if visitor.self_obj is not None else 0) + len(visitor.__dict__.get("pre_args") or []):]
     vp = [a_ for a_ in vp if a_ not in (visitor.__dict__.get("pre_kwargs") or {})]
     ctx.require(len(vp) == 1, "visitor signature changed")
     vname = getattr(vfn, "name", "<lambda>")
@@ -183,7 +206,7 @@ def visitor_table(ctx: Ctx, I: Interp) -> None:
                 wcall = [n for n in ast.walk(st) if isinstance(n, ast.Call) and isinstance(n.func, ast.Name) and n.func.id == "_walk_attrs_and_children"
                          and len(n.args) == 2] if not isinstance(st, ast.FunctionDef) else []
                 if wcall:
-                    vis = run.ev.eval(wcall[0].args[1])      # the visitor: a nested function or a lambda, with its closure
+                    vis = _as_function(prog, run.ev.eval(wcall[0].args[1]))      # the visitor: a nested function, a lambda or a callable object
                     break
                 if isinstance(st, (ast.FunctionDef, ast.Assign, ast.AnnAssign, ast.Expr)):
                     run.ev.exec(st)
@@ -215,11 +238,13 @@ def visitor_table(ctx: Ctx, I: Interp) -> None:
 
             def __repr__(self) -> str:
                 return f"store {short(self.value[0])}"
-        for nm_, lst in env.items():
+        pool_ = [((nm_,), v_) for nm_, v_ in env.items()]
+        pool_ += [((nm_, a_), w_) for nm_, v_ in env.items() if isinstance(v_, SNew) for a_, w_ in v_.attrs.items()]     # a collector object
+        for path_, lst in pool_:
             if isinstance(lst, SList) and lst.mode == "concrete":
                 for it_ in lst.items:
                     apps.append(_A(lst, it_))
-                    holder.setdefault("collector_names", set()).add(nm_)
+                    holder.setdefault("collector_names", set()).add(path_)
             elif isinstance(lst, (SDict,)) and lst.items:
                 other_mut.append(_A(lst, list(lst.items.values())[0]))
         tagified = isinstance(r, SObj) and r.meta.get("tagify_of") is x or (isinstance(r, SObj) and (r.meta.get("call") or {}).get("recv") is x)
@@ -257,7 +282,17 @@ def visitor_table(ctx: Ctx, I: Interp) -> None:
     names = holder.get("collector_names", set())
     tn = holder.get("tag_node")
     ctx.require(bool(names) and isinstance(tn, ast.Call), "collector list / returned Tag(...) call not identified")
-    starred = [a.value.id for a in tn.args if isinstance(a, ast.Starred) and isinstance(a.value, ast.Name)]
+    starred = []
+    for a_ in tn.args:
+        if isinstance(a_, ast.Starred) and isinstance(a_.value, ast.Name):
+            starred.append((a_.value.id,))
+            # `collected = collector.nodes` (a name bound once to an attribute of a collector object)
+            for n_ in ast.walk(fn):
+                if isinstance(n_, ast.Assign) and len(n_.targets) == 1 and isinstance(n_.targets[0], ast.Name) and n_.targets[0].id == a_.value.id \
+                        and isinstance(n_.value, ast.Attribute) and isinstance(n_.value.value, ast.Name):
+                    starred.append((n_.value.value.id, n_.value.attr))
+        if isinstance(a_, ast.Starred) and isinstance(a_.value, ast.Attribute) and isinstance(a_.value.value, ast.Name):
+            starred.append((a_.value.value.id, a_.value.attr))
     ctx.check(any(n in names for n in starred), "C20.collect", "the collected metadata nodes are children of the script (Tag(..., *collected))", where,
               f"Tag(...) stars {starred}; collector {sorted(names)}", "the metadata nodes collected during the walk are not attached to the returned script tag",
               witness="Foo(div(dep)).tagify().get_dependencies()")
@@ -440,11 +475,28 @@ def render_table(ctx: Ctx, I: Interp) -> None:
     ctx.require({"META", "STR", "TAG", "JSXTAG"} <= seen, "_render_react_js table incomplete")
     # the two loops: one generic iteration each
     found = set()
-    for idx in range(4):
+    # every loop reached while rendering a tag / component, in the function itself or in a helper a refactoring extracted
+    keys: List[Any] = []
+    cfgk = Config()
+    cfgk.opaque_all = True
+    cfgk.coarse_counts = True
+    cfgk.loop_effects = False
+    try:
+        for lk in I.run_function(JSX, "_render_react_js", mk_for({"JSXTAG", "TAG"}), cfgk):
+            for rk in lk.run.loops:
+                k_ = rk.__dict__.get("loop_key")
+                if k_ is not None and k_ not in keys:
+                    keys.append(k_)
+    except Unmodelled:
+        keys = []
+    for k_ in [("_render_react_js", i_) for i_ in range(4)]:
+        if k_ not in keys:
+            keys.append(k_)
+    for key_ in keys:
         cfg2 = Config()
         cfg2.opaque_all = True
         cfg2.coarse_counts = True
-        cfg2.stop_at_loop = ("_render_react_js", idx)
+        cfg2.stop_at_loop = key_
         any_rec = False
         for l in I.run_function(JSX, "_render_react_js", mk_for({"JSXTAG", "TAG"}), cfg2):
             rec = getattr(l.run, "stop_loop_record", None)
@@ -480,8 +532,6 @@ def render_table(ctx: Ctx, I: Interp) -> None:
                           f"child iteration: {[short(a) for c in rr for a in c.value]} -> {l.kind}",
                           "a child of a tag/component is not rendered exactly once by the recursive call: children are dropped, duplicated or cut short",
                           witness="Foo('a', div('b'), 'c')")
-        if not any_rec:
-            break
     found_loops = set(found)
     found_comp: set = set()
     if found != {"props", "children"}:
@@ -695,6 +745,7 @@ def prop_names(ctx: Ctx, I: Interp) -> None:
             for e in l.effects:
                 pool += list(e.value) if isinstance(e.value, list) else [e.value]
                 pool += list(((e.extra or {}).get("dstar") or [])) if isinstance(e.extra, dict) else []
+                pool += list(e.__dict__.get("dstar") or [])
             for d_ in pool:
                 c_ = d_.__dict__.get("comp") if isinstance(d_, SDict) else None
                 if c_ is None or iter_base(c_["iter"]) is not m_ or not (isinstance(c_["var"], SList) and len(c_["var"].items) == 2):
